@@ -156,6 +156,40 @@ fn same_structure(src: &RV, got: &RV, float_ref: &dyn Fn(&str) -> Option<f64>, w
     }
 }
 
+/// `v` is what `sj` denotes: same shape, keys in serde_json's order, same integer or double.
+fn sj_matches(sj: &serde_json::Value, v: &Value) -> bool {
+    use serde_json::Value as S;
+    match (sj, v) {
+        (S::Null, Value::Null) => true,
+        (S::Bool(a), Value::Boolean(b)) => a == b,
+        (S::String(a), Value::String(b)) => a.as_str() == b.as_str(),
+        (S::Array(a), Value::Array(b)) => a.len() == b.len() && a.iter().zip(b.iter()).all(|(x, y)| sj_matches(x, y)),
+        (S::Object(a), Value::Object(b)) => a.len() == b.len() && a.iter().zip(b.iter()).all(|((k, x), e)| k.as_str() == e.key.as_str() && sj_matches(x, &e.value)),
+        (S::Number(n), Value::Number(m)) => {
+            let text = m.as_str();
+            if let Some(u) = n.as_u64() {
+                text.parse::<u64>() == Ok(u)
+            } else if let Some(i) = n.as_i64() {
+                text.parse::<i64>() == Ok(i)
+            } else {
+                match (n.as_f64(), text.parse::<f64>()) {
+                    (Some(x), Ok(y)) => x == y,
+                    _ => false,
+                }
+            }
+        }
+        _ => false,
+    }
+}
+
+fn any_key(v: &RV, f: &dyn Fn(&str) -> bool) -> bool {
+    match v {
+        RV::Arr(a) => a.iter().any(|x| any_key(x, f)),
+        RV::Obj(o) => o.iter().any(|(k, x)| f(k) || any_key(x, f)),
+        _ => false,
+    }
+}
+
 fn show_opt(v: &Option<Value>) -> String {
     match v {
         Some(v) => v.to_string(),
@@ -280,6 +314,55 @@ pub fn check_value(rv: &RV, t: &mut Tally) {
                     NumCmp::Differs(why) => t.violation(class, format!("serde_json::from_str::<Value>({text}) = {}: {why}", got.show()), case()),
                 }
             }
+            // (c') the other ways serde_json hands the same text to Value's visitor (borrowed
+            // strings, copied strings, owned strings, a reader, insignificant whitespace): all
+            // must give what from_str gave
+            t.evals += 1;
+            let pretty = v.pretty_print().to_string();
+            let routes = explore::guard(|| {
+                use serde::Deserialize;
+                let mut out: Vec<(&str, Option<Value>, Option<Value>)> = Vec::new();
+                let base = Some(w.clone());
+                let mut sj_bad: Vec<String> = Vec::new();
+                out.push(("serde_json::from_slice", serde_json::from_slice::<Value>(text.as_bytes()).ok(), base.clone()));
+                out.push(("serde_json::from_reader", serde_json::from_reader::<_, Value>(std::io::Cursor::new(text.as_bytes())).ok(), base.clone()));
+                out.push(("serde_json::from_str on the pretty-printed text", serde_json::from_str::<Value>(&pretty).ok(), base.clone()));
+                out.push(("serde_json::from_reader on the pretty-printed text", serde_json::from_reader::<_, Value>(std::io::Cursor::new(pretty.as_bytes())).ok(), base.clone()));
+                if let Ok(sj) = serde_json::from_str::<serde_json::Value>(&text) {
+                    // (serde_json's own value sorts the keys and has already rounded the numbers
+                    // its own way: the reference is that value itself, node by node)
+                    for (name, r) in [("Value::deserialize(&serde_json::Value)", Value::deserialize(&sj)), ("serde_json::from_value::<Value>", serde_json::from_value::<Value>(sj.clone()))] {
+                        match r {
+                            Ok(x) if sj_matches(&sj, &x) => {}
+                            Ok(x) => sj_bad.push(format!("{name} on {sj} gives {x}")),
+                            Err(e) => sj_bad.push(format!("{name} on {sj} fails: {e}")),
+                        }
+                    }
+                }
+                let mut de = serde_json::Deserializer::from_str(&text);
+                out.push(("Value::deserialize(&mut serde_json::Deserializer)", Value::deserialize(&mut de).ok(), base.clone()));
+                (out, sj_bad)
+            });
+            match routes {
+                Ok((list, sj_bad)) => {
+                    let mut all = sj_bad.is_empty();
+                    // (serde_json's map is sorted: the reserved token may become a first key there)
+                    let sj_class = if class == "D11" || any_key(rv, &|k| k == TOKEN) { "D11" } else { "" };
+                    for b in sj_bad {
+                        t.violation(sj_class, b, case());
+                    }
+                    for (name, r, want) in list {
+                        if r != want {
+                            all = false;
+                            t.violation(class, format!("{name} on {text} gives {}, serde_json::from_str on the same text gives {}", show_opt(&r), show_opt(&want)), case());
+                        }
+                    }
+                    if all {
+                        t.outcome("deserialize from text: every serde_json route agrees");
+                    }
+                }
+                Err(p) => t.violation("", format!("a serde_json route into Value panicked on {text}: {p}"), case()),
+            }
         }
         Ok(Err(e)) => {
             let class = if token_first(rv) { "D11" } else { "" };
@@ -340,6 +423,13 @@ pub fn boundary_numbers() -> Vec<String> {
     ]
     .iter()
     .map(|s| s.to_string())
+    .chain(
+        // the decimal point moved up to 25 places either way, exponent adjusted (the written
+        // exponent leaves the range of doubles while the value stays inside, and conversely)
+        [f64::MAX, 1e308, 1.7976931348623157e308, f64::MIN_POSITIVE, 5e-324, 1e-323, 2.5e-320, 1.0, 123.456, 9.007199254740993e15, 1e22, 1e23]
+            .into_iter()
+            .flat_map(refmodel::canon::shifted_spellings),
+    )
     .collect()
 }
 
@@ -421,6 +511,47 @@ pub fn run(rep: &mut Report, tier: Tier) {
         rep.bounds["in_place"] = json!({"values": ns, "ordered_pairs": ns * ns});
         rep.absorb(t);
     }
+    // keys that look reserved: the private tokens of the serde ecosystem (serde_json's raw-value
+    // and number tokens, toml's datetime, serde_spanned's fields), near misses of the one token
+    // the crate does reserve, and other sigil keys - as first, middle and last key, at the root
+    // and nested, with every kind of payload. All of them are ordinary keys (D11 apart).
+    {
+        let looks_reserved = [
+            "$serde_json::private::RawValue",
+            "$serde_json::private::Numbe",
+            "$serde_json::private::Numberx",
+            "$serde_json::private::number",
+            "$serde_json::private::Number ",
+            "$__toml_private_datetime",
+            "$__serde_spanned_private_start",
+            "$__serde_spanned_private_value",
+            "$serde_json::private",
+            "$",
+            "$ref",
+            "@type",
+            "",
+        ];
+        let payloads = [RV::Null, RV::Bool(true), RV::num("1"), RV::num("1.5"), RV::str("1"), RV::str("[1,2]"), RV::str("{\"a\":1}"), RV::str("x"), RV::Arr(vec![]), RV::Arr(vec![RV::num("1")]), RV::Obj(vec![]), RV::Obj(vec![("a".into(), RV::num("1"))])];
+        let mut t = Tally::new();
+        for k in looks_reserved {
+            for p in &payloads {
+                let solo = RV::Obj(vec![(k.to_string(), p.clone())]);
+                for v in [
+                    solo.clone(),
+                    RV::Obj(vec![(k.to_string(), p.clone()), ("z".into(), RV::Null)]),
+                    RV::Obj(vec![("a".into(), RV::Null), (k.to_string(), p.clone())]),
+                    RV::Obj(vec![("a".into(), RV::Null), (k.to_string(), p.clone()), ("z".into(), RV::num("2"))]),
+                    RV::Arr(vec![solo.clone(), solo.clone()]),
+                    RV::Obj(vec![("o".into(), solo.clone())]),
+                ] {
+                    check_value(&v, &mut t);
+                }
+            }
+            t.nontrivial(&k);
+        }
+        rep.bounds["reserved_looking_keys"] = json!({"keys": looks_reserved, "payloads": payloads.len(), "placements": 6});
+        rep.absorb(t);
+    }
     // pumped linear families
     let all = refmodel::pump::all(tier == Tier::Thorough);
     let np = all.len();
@@ -438,8 +569,9 @@ pub fn run(rep: &mut Report, tier: Tier) {
     }
     rep.absorb(t);
     rep.tally.sample(json!({"value": "{\"a\":0,\"b\":1.5,\"a\":null}", "serialized_expected": expected_serialized(&RV::Obj(vec![("a".into(), RV::num("0")), ("b".into(), RV::num("1.5")), ("a".into(), RV::Null)])).show()}));
-    let pumped_n = rep.bounds["pumped_values"].clone();
-    rep.bounds = json!({"pumped_values": pumped_n, "number_spellings": nsp, "spelling_alphabet": "019-.eE+", "max_spelling_length": l, "boundary_numbers": boundary_numbers().len(), "structure_values": nv, "structure_max_nodes": n, "keys": keys});
+    for (k, v) in [("number_spellings", json!(nsp)), ("spelling_alphabet", json!("019-.eE+")), ("max_spelling_length", json!(l)), ("boundary_numbers", json!(boundary_numbers().len())), ("structure_values", json!(nv)), ("structure_max_nodes", json!(n)), ("keys", json!(keys))] {
+        rep.bounds[k] = v;
+    }
 }
 
 pub fn replay(case: &explore::serde_json::Value) -> Result<(), String> {
